@@ -242,6 +242,13 @@ def harness_bin(release=False):
     return os.path.join(HARNESS, "target", "release" if release else "debug", "gvharness")
 
 
+def _harness_limits():
+    """resource limits of one harness process: a change that makes the library allocate without bound is
+    stopped at 8 GB of address space instead of exhausting the machine"""
+    import resource
+    resource.setrlimit(resource.RLIMIT_AS, (8 << 30, 8 << 30))
+
+
 def harness_run(mode, cases_file, release=False, timeout=1800, extra=None):
     """runs the harness; exit status 3 means "a watchdog expired in the last case printed": the process
     is restarted on the remaining cases so that abandoned (spinning) threads do not accumulate"""
@@ -256,14 +263,33 @@ def harness_run(mode, cases_file, release=False, timeout=1800, extra=None):
         if rounds > 1:
             open(cf, "w").write("\n".join(pending) + "\n")
         cmd = [harness_bin(release), mode, cf] + (extra or [])
-        p = subprocess.run(cmd, stdout=subprocess.PIPE, stderr=subprocess.PIPE, timeout=timeout, env=ENV,
-                           text=True, errors="replace")
-        all_out.append(p.stdout)
-        all_err.append(p.stderr)
-        if p.returncode != 3 or rounds > 2000:
-            return p.returncode, "".join(all_out), "".join(all_err)
-        done = len(re.findall(r"^end$", p.stdout, flags=re.M))
-        pending = pending[done:]
+        try:
+            p = subprocess.run(cmd, stdout=subprocess.PIPE, stderr=subprocess.PIPE, timeout=timeout, env=ENV,
+                               text=True, errors="replace", preexec_fn=_harness_limits)
+            rc, out, err = p.returncode, p.stdout, p.stderr
+        except subprocess.TimeoutExpired as e:
+            dec = lambda b: b.decode("utf-8", "replace") if isinstance(b, bytes) else (b or "")
+            rc, out, err = -9, dec(e.stdout), dec(e.stderr) + "\n[driver] harness killed after %d s" % timeout
+        if rc in (0, 2, 3) or rounds > 2000:
+            all_out.append(out)
+            all_err.append(err)
+            if rc != 3 or rounds > 2000:
+                return rc, "".join(all_out), "".join(all_err)
+            done = len(re.findall(r"^end$", out, flags=re.M))
+            pending = pending[done:]
+            if not pending:
+                return 0, "".join(all_out), "".join(all_err)
+            continue
+        # the process died (memory limit, abort, signal, wall-clock limit) inside one case: keep the complete
+        # cases, report the interrupted one as "did not return" (outcome 101 + the exit status, kind 9) and go on
+        done = len(re.findall(r"^end$", out, flags=re.M))
+        keep = re.findall(r"^case .*?^end$", out, flags=re.S | re.M)
+        all_out.append("\n".join(keep[:done]) + "\n")
+        all_err.append(err)
+        if done < len(pending):
+            cid = pending[done].split()[1]
+            all_out.append("case %s\nO 1 1 1 101 F 0\nO 9 1 1 %d F 0\nend\n" % (cid, rc))
+        pending = pending[done + 1:]
         if not pending:
             return 0, "".join(all_out), "".join(all_err)
 
